@@ -116,7 +116,21 @@ def u_arr_append(row):
     row['n'] = row['n'] + 0
 
 
-USER = {'u_arr_append': ('row', u_arr_append), 'u_bump_n': ('row', u_bump_n), 'u_upper_s': ('row', u_upper_s),
+def u_rows_first2(rows):
+    # a consumer that stops reading its resource early (e.g. "preview the first rows")
+    import itertools
+    return itertools.islice(rows, 2)
+
+
+def u_rows_break3(rows):
+    for i, row in enumerate(rows):
+        if i >= 3:
+            break
+        yield row
+
+
+USER = {'u_rows_first2': ('rows', u_rows_first2), 'u_rows_break3': ('rows', u_rows_break3),
+        'u_arr_append': ('row', u_arr_append), 'u_bump_n': ('row', u_bump_n), 'u_upper_s': ('row', u_upper_s),
         'u_rows_drop_odd': ('rows', u_rows_drop_odd), 'u_rows_twice_n': ('rows', u_rows_twice_n),
         'u_pkg_title': ('package', u_pkg_title), 'u_pkg_neg_n': ('package', u_pkg_neg_n)}
 SHAPES = ['function', 'lambda', 'bound_method', 'partial', 'callable_object']
